@@ -168,6 +168,7 @@ let drv_main () =
     | ["m_cred"; u; g; n; a; b; c] ->
         uid := n_of_string u; gid := n_of_string g; groups := int_of_string n; sg := sw_of a; sgid := sw_of b; suid := sw_of c
     | ["m_self"; p] -> self := n_of_string p
+    | ["m_afail"; _] -> ()   (* the k-th allocation of the implementation's main() fails: no counterpart in the model *)
     | ["m_slot"; po; rd; vers; ex; wr; ovf; pid; fd; eok; wok; tmo] ->
         let s = { s_poll = (match po with "0" -> PollEvent | "1" -> PollTimeout | "2" -> PollErr | _ -> PollHup);
                   s_read = (match rd with "0" -> ReadFull | "1" -> ReadShort | _ -> ReadFail);
